@@ -526,12 +526,27 @@ def run_property(mod, ctx, replay_path=None):
   elif broken:
     violations[0][1]["also_broken"] = broken
 
+  probes = getattr(mod, "KNOWN_PROBES", {})
+  probe_fired = {}
   for e in known:
     fired = known_fired.get(e["id"], [])
     if fired:
       line = "KNOWN-FINDING: property=%s %s (%d case(s) this run, e.g. %s)" % (
           pid, e["what"], len(fired), json.dumps(cases[fired[0]].desc, default=str)[:300])
       known_lines.append(line)
+    elif e.get("class") in probes and not replay_path:
+      # a listed finding that the case stream does not produce: replay its fixed witness on the real code
+      try:
+        w = probes[e["class"]](ctx)
+      except Exception as ex:  # pylint: disable=broad-except
+        w = None
+        print("# probe of known finding %s raised %r" % (e["id"], ex))
+      if w:
+        probe_fired[e["id"]] = 1
+        known_lines.append("KNOWN-FINDING: property=%s %s (fixed witness replayed this run: %s)" % (
+            pid, e["what"], str(w)[:300]))
+      else:
+        print("# listed known finding %s did not reproduce on its fixed witness this run" % e["id"])
 
   # 5. evidence
   distinct = {}
@@ -557,7 +572,7 @@ def run_property(mod, ctx, replay_path=None):
       "disagreements_checked": len(terms),
       "disagreements_found": len(bad_cases),
       "property_predicate_failures": len(pred_fail_cases),
-      "known_findings_fired": {k: len(v) for k, v in known_fired.items()},
+      "known_findings_fired": dict({k: len(v) for k, v in known_fired.items()}, **probe_fired),
       "corpus_cases": len(corpus),
       "limits": list(getattr(mod, "LIMITS", [])),
       "exhaustive": bool(extra_stats.get("exhaustive", False)),
